@@ -9,21 +9,27 @@ func MgmtApi.CreateBackup
   modifies everything
 func MgmtApi.ListBackups
   modifies everything
+// (ghost bookkeeping, as for the store: which backup the API was asked to delete)
 func MgmtApi.DeleteBackup
-  modifies everything
+  modifies everything, deleteBackupCalls, lastDeletedBackup
+  assumes deleteBackupCalls == old(deleteBackupCalls) + 1 && lastDeletedBackup == backupID
 
 func ManageBackup.$1
   props C11 C16
   requires !isnil(api) && !isnil(w) && r != nil && r.URL != nil
-  modifies everything
+  modifies everything, deleteBackupCalls, lastDeletedBackup, lastParsedUint
 func CreateBackup
   props C11 C16
   requires !isnil(api) && !isnil(w) && r != nil
   modifies everything
+// at most one deletion is requested, and it is for exactly the number in the query string:
+// an id that does not fit the 32 bits of a backup id is refused, never cut down to another id
 func DeleteBackup
   props C11 C16
   requires !isnil(api) && !isnil(w) && r != nil && r.URL != nil
-  modifies everything
+  modifies everything, deleteBackupCalls, lastDeletedBackup, lastParsedUint
+  ensures C16/at-most-one-deletion: deleteBackupCalls == old(deleteBackupCalls) || deleteBackupCalls == old(deleteBackupCalls) + 1
+  ensures C16/deletes-the-id-in-the-request: deleteBackupCalls != old(deleteBackupCalls) ==> uint64(lastDeletedBackup) == lastParsedUint
 func ListBackups.$1
   props C11 C16
   requires !isnil(api) && !isnil(w) && r != nil
